@@ -494,3 +494,144 @@ pub fn case_strategy(gc: GenCfg) -> impl Strategy<Value = Case> {
         Case { vol, ops }
     })
 }
+
+// ---------------------------------------------------------------------------------------------------------
+// Directory-pressure histories.  The state-blind mixed generator rarely fills a directory (a full fixed root in
+// ~0.1 % of its cases, a directory that has to grow in ~0.2 %), yet slot-run search, end-marker handling, growth and
+// its roll-back are where entry creation is intricate.  This profile concentrates on ONE directory (a small fixed
+// root, or a cluster-chained directory on a volume with 1..6 free clusters), creates entries whose names need
+// 1..=7 slots (and sometimes 20), removes the most recent or a random earlier one (holes of every size directly in front
+// of the end marker and in the middle), renames to names of another length, and moves entries in and out.
+
+/// name number `i` needing a chosen number of slots: 1 (upper-case 8.3), 2 (lower case / 13 units), 3 (14 / 26), ...
+pub fn pressure_name(i: usize, sel: u16) -> String {
+    let stem = format!("f{:02}", i % 100);
+    let lens: [usize; 16] = [0, 1, 3, 13, 14, 26, 27, 39, 40, 52, 53, 65, 66, 78, 130, 255];
+    let l = lens[(sel as usize * lens.len()) >> 16];
+    match l {
+        0 => stem.to_uppercase(),                    // "F07": short entry only
+        1 => format!("{}.TXT", stem.to_uppercase()), // "F07.TXT": short entry only
+        _ => {
+            let mut s = stem;
+            while s.len() < l {
+                s.push((b'a' + (s.len() % 23) as u8) as char);
+            }
+            s
+        }
+    }
+}
+
+pub fn pressure_case_strategy(gc: GenCfg) -> impl Strategy<Value = Case> {
+    (raw_vol_strategy(), any::<u16>(), prop::collection::vec(raw_op_strategy(), 4..=64)).prop_map(move |(rv, mode, raws)| {
+        let fixed_root = mode % 100 < 45;
+        let mut vol = if fixed_root {
+            // small fixed roots: 16, 32, 32, 40, 32 entries
+            VolCfg::from_preset(pick(&[0usize, 0, 0, 1, 3, 5, 11], rv.preset))
+        } else {
+            let mut v = if ((rv.misc as u32 * 100) >> 16) < gc.gen_geom_pct { VolCfg::from_gen_preset((rv.preset as usize * crate::vol::GEN_PRESETS.len()) >> 16) } else { VolCfg::from_preset(pick(&[0usize, 1, 5, 8, 9, 12, 12, 3], rv.preset)) };
+            v.free_lo = Some(pick(&[1u16, 2, 2, 3, 3, 4, 6], rv.lo));
+            v.free_hi = pick(&[0u16, 0, 1], rv.hi);
+            v
+        };
+        vol.status0 = pick(&gc.status0, rv.misc);
+        vol.access_date = pick(&gc.access_date, rv.misc.rotate_left(4));
+        // the directory under pressure
+        let base: &str = if fixed_root || (vol.fat == 32 && mode & 0x100 != 0) { "" } else if mode & 0x200 != 0 { "d/e" } else { "d" };
+        let other: &str = if base.is_empty() { "o" } else { "" };
+        let join = |dir: &str, n: &str| if dir.is_empty() { n.to_string() } else { format!("{}/{}", dir, n) };
+        let mut ops = Vec::new();
+        if !base.is_empty() {
+            ops.push(Op::CreateDir { via: 0, path: "d".into(), keep: 0 });
+            if base == "d/e" {
+                ops.push(Op::CreateDir { via: 0, path: "d/e".into(), keep: 0 });
+            }
+        }
+        let mut made: Vec<String> = Vec::new(); // full paths of entries named so far (some are gone again: state-blind)
+        let mut counter = 0usize;
+        let cs = vol.cluster_size();
+        for r in &raws {
+            let t = (r.kind as u32 * 100) >> 16;
+            let newest_first = r.d & 3 != 0; // 75 %: act on the most recent entry (hole directly before the end marker)
+            let pick_made = |made: &Vec<String>, sel: u16| -> Option<String> {
+                if made.is_empty() {
+                    None
+                } else if newest_first {
+                    Some(made[made.len() - 1 - ((sel as usize * made.len().min(3)) >> 16)].clone())
+                } else {
+                    Some(made[(sel as usize * made.len()) >> 16].clone())
+                }
+            };
+            if t < 34 {
+                let p = join(base, &pressure_name(counter, r.a));
+                counter += 1;
+                made.push(p.clone());
+                ops.push(Op::CreateFile { via: 0, path: p, keep: 0 });
+            } else if t < 46 {
+                let p = join(base, &pressure_name(counter, r.a));
+                counter += 1;
+                made.push(p.clone());
+                ops.push(Op::CreateDir { via: 0, path: p, keep: 0 });
+            } else if t < 68 {
+                if let Some(p) = pick_made(&made, r.b) {
+                    if r.c & 7 != 0 {
+                        made.retain(|x| *x != p);
+                    }
+                    ops.push(Op::Remove { via: 0, path: p });
+                }
+            } else if t < 82 {
+                // rename inside the directory to a name of another length
+                if let Some(p) = pick_made(&made, r.b) {
+                    let dst = join(base, &pressure_name(counter, r.a));
+                    counter += 1;
+                    made.retain(|x| *x != p);
+                    made.push(dst.clone());
+                    ops.push(Op::Rename { via: 0, src: p, dvia: 0, dst });
+                }
+            } else if t < 88 {
+                // move out of / into the directory
+                if r.c & 1 == 0 {
+                    if let Some(p) = pick_made(&made, r.b) {
+                        if other == "o" && !made.iter().any(|x| x == "o") {
+                            ops.push(Op::CreateDir { via: 0, path: "o".into(), keep: 0 });
+                        }
+                        let dst = join(other, &pressure_name(counter, r.a));
+                        counter += 1;
+                        made.retain(|x| *x != p);
+                        made.push(dst.clone());
+                        ops.push(Op::Rename { via: 0, src: p, dvia: 0, dst });
+                    }
+                } else {
+                    let src = join(other, &pressure_name(counter, 0));
+                    counter += 1;
+                    if other == "o" {
+                        ops.push(Op::CreateDir { via: 0, path: "o".into(), keep: 0 });
+                    }
+                    ops.push(Op::CreateFile { via: 0, path: src.clone(), keep: 0 });
+                    let dst = join(base, &pressure_name(counter, r.a));
+                    counter += 1;
+                    made.push(dst.clone());
+                    ops.push(Op::Rename { via: 0, src, dvia: 0, dst });
+                }
+            } else if t < 93 {
+                // a file with data: eats clusters, so that growth of the directory runs out of space
+                let p = join(base, &pressure_name(counter, r.a & 0x3FFF));
+                counter += 1;
+                made.push(p.clone());
+                ops.push(Op::CreateFile { via: 0, path: p, keep: 1 });
+                ops.push(Op::Write { h: 0, len: io_len(r.n, cs, 250), seed: (r.a >> 8) as u8 });
+                ops.push(Op::CloseFile { h: 0 });
+            } else if t < 95 {
+                ops.push(Op::List { via: 0 });
+            } else if t < 97 {
+                ops.push(Op::Stats);
+            } else if t < 99 {
+                ops.push(Op::Remount { how: (r.a & 1) as u8 });
+            } else {
+                if let Some(p) = pick_made(&made, r.b) {
+                    ops.push(Op::OpenFile { via: 0, path: p, keep: 0 });
+                }
+            }
+        }
+        Case { vol, ops }
+    })
+}
